@@ -288,37 +288,49 @@ def digExp (m : Nat) (e : Int) : Int := e - ((53 - bitLen m : Nat) : Int)
 def digShift (m : Nat) (e : Int) : Option Arr :=
   if digExp m e < 0 then digShr 64 (digInit m) (-(digExp m e)).toNat else digShl 64 (digInit m) (digExp m e).toNat
 
+/-- `round_digit = UNITS_DIGIT + (scale <= 0 ? -((-scale) / 9) : (scale + 8) / 9)` -/
+def roundDigitOf (scale : Int) : Int :=
+  if scale ≤ 0 then (UNITS_DIGIT : Int) - (((-scale).toNat / DDIG_PER_DIG : Nat) : Int)
+  else (UNITS_DIGIT : Int) + (((scale.toNat + DDIG_PER_DIG - 1) / DDIG_PER_DIG : Nat) : Int)
+
+/-- `round_pos = (-scale) % 9`, made non-negative -/
+def roundPosOf (scale : Int) : Nat := ((-scale) % (DDIG_PER_DIG : Int)).toNat
+
+/-- the rounding step inside limb `r` at decimal position `rp`: "capture the first few insignificant digits, and
+    clear them from the result if necessary", `digits[round_digit] = p10 * round_it(…)` -/
+def roundStep (A : Arr) (r rp : Nat) : List Nat :=
+  (if rp = 0 then A.digits else A.digits.set r (A.digits.getD r 0 - A.digits.getD r 0 % pow10 rp)).set r
+    (pow10 rp * roundIt (if rp = 0 then A.digits else A.digits.set r (A.digits.getD r 0 - A.digits.getD r 0 % pow10 rp))
+      ((if rp = 0 then A.digits else A.digits.set r (A.digits.getD r 0 - A.digits.getD r 0 % pow10 rp)).getD r 0 / pow10 rp)
+      (if rp = 0 then A.digits.getD (r + 1) 0 else (A.digits.getD r 0 % pow10 rp) * (BBASE / pow10 rp))
+      (if rp = 0 then r + 1 else r) A.lsd)
+
+/-- "generate and return the digit string": the most significant limb with as many digits as it has, the following
+    limbs up to `r` with nine digits each -/
+def genDigits (ds : List Nat) (msd r : Nat) : List Nat :=
+  limbDigits (countDigits (ds.getD msd 0)) (ds.getD msd 0)
+    ++ ((ds.drop (msd + 1)).take (r - msd)).flatMap (limbDigits DDIG_PER_DIG)
+
 /-- rounding at the scale, carry propagation, digit generation -/
 def digFinish (A : Arr) (scale : Int) : Option (List Nat) :=
-  -- round_digit = UNITS_DIGIT + (scale <= 0 ? -((-scale) / 9) : (scale + 8) / 9)
-  let rd : Int := if scale ≤ 0 then (UNITS_DIGIT : Int) - (((-scale).toNat / DDIG_PER_DIG : Nat) : Int)
-                  else (UNITS_DIGIT : Int) + (((scale.toNat + DDIG_PER_DIG - 1) / DDIG_PER_DIG : Nat) : Int)
-  if rd < 0 ∨ (DIG_PER_DBL : Int) ≤ rd then none        -- outside what cif_value_init_numb admits
+  if roundDigitOf scale < 0 ∨ (DIG_PER_DBL : Int) ≤ roundDigitOf scale then none   -- outside what cif_value_init_numb admits
+  else if (roundDigitOf scale).toNat < A.msd then
+    -- lsd < msd: "no carry needed", p10 = 1
+    some (genDigits (roundStep A (roundDigitOf scale).toNat (roundPosOf scale)) (roundDigitOf scale).toNat (roundDigitOf scale).toNat)
   else
-    let r := rd.toNat
-    let roundPos : Nat := ((-scale) % (DDIG_PER_DIG : Int)).toNat
-    let p10 := pow10 roundPos
-    let cur := A.digits.getD r 0
-    -- capture the first few insignificant digits, and clear them from the result if necessary
-    let checkValue := if roundPos = 0 then A.digits.getD (r + 1) 0 else (cur % p10) * (BBASE / p10)
-    let checkIdx := if roundPos = 0 then r + 1 else r
-    let cleared := if roundPos = 0 then A.digits else A.digits.set r (cur - cur % p10)
-    let rounded := p10 * roundIt cleared (cleared.getD r 0 / p10) checkValue checkIdx A.lsd
-    let ds1 := cleared.set r rounded
-    -- lsd = digits + round_digit
-    let res : List Nat × Nat × Nat :=      -- (digits, msd, p10 used for truncation)
-      if r < A.msd then (ds1, r, 1)
-      else
-        let c := carryLoop (DIG_PER_DBL + 1) ds1 r
-        (c.1, (if c.2 < A.msd then c.2 else A.msd), p10)
-    let ds2 := res.1
-    let msd := res.2.1
-    let first := limbDigits (countDigits (ds2.getD msd 0)) (ds2.getD msd 0)
-    let others := ((ds2.drop (msd + 1)).take (r - msd)).flatMap (limbDigits DDIG_PER_DIG)
-    let all := first ++ others
-    -- truncate the digit string after the last significant digit: log10(p10) characters, but not more than there are
-    let cut := if res.2.2 = 1 then 0 else roundPos
-    some (all.take (all.length - cut))
+    -- complete the rounding by applying any carry digit(s); update the most-significant digit if necessary
+    some ((genDigits (carryLoop (DIG_PER_DBL + 1) (roundStep A (roundDigitOf scale).toNat (roundPosOf scale)) (roundDigitOf scale).toNat).1
+            (if (carryLoop (DIG_PER_DBL + 1) (roundStep A (roundDigitOf scale).toNat (roundPosOf scale)) (roundDigitOf scale).toNat).2 < A.msd
+              then (carryLoop (DIG_PER_DBL + 1) (roundStep A (roundDigitOf scale).toNat (roundPosOf scale)) (roundDigitOf scale).toNat).2
+              else A.msd)
+            (roundDigitOf scale).toNat).take
+          ((genDigits (carryLoop (DIG_PER_DBL + 1) (roundStep A (roundDigitOf scale).toNat (roundPosOf scale)) (roundDigitOf scale).toNat).1
+            (if (carryLoop (DIG_PER_DBL + 1) (roundStep A (roundDigitOf scale).toNat (roundPosOf scale)) (roundDigitOf scale).toNat).2 < A.msd
+              then (carryLoop (DIG_PER_DBL + 1) (roundStep A (roundDigitOf scale).toNat (roundPosOf scale)) (roundDigitOf scale).toNat).2
+              else A.msd)
+            (roundDigitOf scale).toNat).length
+            -- truncate log10(p10) characters, but not more than there are
+            - (if pow10 (roundPosOf scale) = 1 then 0 else roundPosOf scale)))
 
 /-- `to_digits(d, scale)` for `|d| = m·2^e` at the limb level (default rounding mode) -/
 def toDigitsLimbs (m : Nat) (e : Int) (scale : Int) : Option (List Nat) :=
